@@ -557,7 +557,7 @@ class Type1TagMemoryReader(object):
             self._data_in_cache.extend(data)
 
     def _write_to_tag(self, stop):
-        hr0 = self._header_rom[0]
+        hr0 = self._header_rom[0] if stop > 0 else 0
         if hr0 >> 4 == 1 and hr0 & 0x0F != 1:
             for i in range(0, stop, 8):
                 data = self._data_in_cache[i:i+8]
@@ -573,7 +573,16 @@ class Type1TagMemoryReader(object):
 
     def synchronize(self):
         """Write pages that contain modified data back to tag memory."""
-        self._write_to_tag(stop=len(self))
+        try:
+            self._write_to_tag(stop=len(self))
+        except Type1TagCommandError:
+            # A failed write command may or may not have changed the
+            # tag memory. Forget all that was read and modified, it
+            # is read again from the tag when accessed.
+            del self._data_from_tag[:]
+            del self._data_in_cache[:]
+            self._header_rom = bytearray(0)
+            raise
 
 
 def activate(clf, target):
